@@ -17,6 +17,7 @@
 #include <ompl/base/spaces/special/KleinBottleStateSpace.h>
 #include <cmath>
 #include <functional>
+#include <set>
 #include <string>
 #include <vector>
 
@@ -336,6 +337,43 @@ namespace vsp
         if (thorough)
             n.push_back("Nested3");
         return n;
+    }
+
+
+    // thorough tier: enlarge a lattice by states the space itself produces between lattice members (golden-section points of a fixed,
+    // deterministic selection of pairs). Inputs only: anything that is not a valid in-bounds state is dropped, duplicates are dropped.
+    inline void densify(SpaceCfg &c, size_t maxSize)
+    {
+        size_t n = c.lattice.size();
+        if (n < 2 || c.hasDiscrete)
+            return;
+        auto *sp = c.space.get();
+        ob::State *a = sp->allocState(), *b = sp->allocState(), *o = sp->allocState();
+        std::set<Coords> seen(c.lattice.begin(), c.lattice.end());
+        for (size_t stride : {(size_t)1, (size_t)3, (size_t)7})
+            for (size_t i = 0; i < n && c.lattice.size() < maxSize; ++i)
+            {
+                size_t j = (i * 5 + stride * 11 + 1) % n;
+                if (i == j)
+                    continue;
+                const double *p = c.lattice[i].data();
+                setCoordsRec(sp, a, p);
+                p = c.lattice[j].data();
+                setCoordsRec(sp, b, p);
+                sp->interpolate(a, b, stride == 1 ? 0.3819660112501051 : stride == 3 ? 0.5 : 0.9, o);
+                if (!sp->satisfiesBounds(o))
+                    continue;
+                Coords co;
+                getCoordsRec(sp, o, co);
+                bool finite = true;
+                for (double d : co)
+                    finite = finite && std::isfinite(d);
+                if (finite && seen.insert(co).second)
+                    c.lattice.push_back(co);
+            }
+        sp->freeState(a);
+        sp->freeState(b);
+        sp->freeState(o);
     }
 
     inline ob::RealVectorBounds rvb(std::initializer_list<std::pair<double, double>> l)
